@@ -87,15 +87,18 @@ func Gnm(dst GraphBuilder, n, m int, src rand.Source) error {
 		return nil
 	}
 
+	// For directed graphs the edges are split between the forward
+	// and the backward direction.
+	forward, backward := m, 0
 	hasEdge := dst.HasEdgeBetween
 	d, isDirected := dst.(graph.Directed)
 	if isDirected {
-		m /= 2
+		forward, backward = m-m/2, m/2
 		hasEdge = d.HasEdgeFromTo
 	}
 
 	nChoose2 := (n - 1) * n / 2
-	if m < 0 || m > nChoose2 {
+	if m < 0 || forward > nChoose2 {
 		return fmt.Errorf("gen: bad size: m=%d", m)
 	}
 
@@ -114,7 +117,7 @@ func Gnm(dst GraphBuilder, n, m int, src rand.Source) error {
 	}
 
 	// Add forward edges for all graphs.
-	for i := 0; i < m; i++ {
+	for i := 0; i < forward; i++ {
 		for {
 			v, w := edgeNodesFor(rnd(nChoose2), nodes)
 			if !hasEdge(w.ID(), v.ID()) {
@@ -128,7 +131,7 @@ func Gnm(dst GraphBuilder, n, m int, src rand.Source) error {
 	if !isDirected {
 		return nil
 	}
-	for i := 0; i < m; i++ {
+	for i := 0; i < backward; i++ {
 		for {
 			v, w := edgeNodesFor(rnd(nChoose2), nodes)
 			if !hasEdge(v.ID(), w.ID()) {
